@@ -430,7 +430,9 @@ def run(tier, seed, replay=None):
             o4 = o6 = None
         if o4 is not None:
             lp6 = e2e.free_port()
-            px = e2e.Proxy(driver, [{"name": "socks6", "type": "socks", "bind": "[%s]:%d" % (g6, lp6)}], [{"name": "direct"}], [{"target": "direct"}], metrics=False, name="c10-v6")
+            lp4 = e2e.free_port()
+            px = e2e.Proxy(driver, [{"name": "socks6", "type": "socks", "bind": "[%s]:%d" % (g6, lp6)}, {"name": "socks4c", "type": "socks", "bind": "%s:%d" % (LOOP, lp4)}],
+                           [{"name": "direct"}], [{"target": "direct"}], metrics=False, name="c10-v6")
             try:
                 px.start()
                 c = socket.socket(socket.AF_INET6)
@@ -468,6 +470,34 @@ def run(tier, seed, replay=None):
                 else:
                     rep.fail("C10: SOCKS5 UDP ASSOCIATE from %s was answered %s" % (g6, rp_.hex()), {"kind": "failing-input", "scenario": "socks5 udp from ipv6"})
                 e2e.close_quiet(c)
+                # the other way round: the client reaches the proxy over IPv4 and addresses an IPv4, an IPv6 and again an IPv4
+                # destination through ONE association
+                a4 = uw.SocksUdpClient(lp4)
+                if a4.ok:
+                    seq = (("IPv4", LOOP, o4.getsockname()[1], b"\x00\x00\x00\x01" + socket.inet_aton(LOOP)), ("IPv6", g6, o6.getsockname()[1], b"\x00\x00\x00\x04" + socket.inet_pton(socket.AF_INET6, g6)),
+                           ("IPv4", LOOP, o4.getsockname()[1], b"\x00\x00\x00\x01" + socket.inet_aton(LOOP)))
+                    for i, (fam_name, host_, port_, h_) in enumerate(seq):
+                        pay = b"v4client-%d" % i
+                        n_eval += 1
+                        dist["socks5-from-ipv4|" + fam_name] += 1
+                        hdr = h_ + struct.pack(">H", port_)
+                        d_ = b""
+                        try:
+                            a4.udp.sendto(hdr + pay, a4.relay)
+                            a4.udp.settimeout(2)
+                            d_, _a = a4.udp.recvfrom(70000)
+                        except (socket.timeout, OSError):
+                            pass
+                        ok_ = d_[3:] == hdr[3:] + pay
+                        v6_runs.append(dict(client="ipv4", dest=fam_name, ok=ok_))
+                        if not ok_:
+                            rep.fail("C10: SOCKS5 UDP client connected over IPv4, datagram %d of one association, to an %s destination (after %s): the reply is %s, expected the payload labelled with the destination's own address" % (
+                                i + 1, fam_name, "nothing" if i == 0 else "a datagram to an %s destination" % seq[i - 1][0], d_.hex()[:80] or "missing"),
+                                {"kind": "failing-input", "scenario": "socks5 udp from ipv4 to both families", "datagram": i, "dest": fam_name, "reply": d_.hex()[:200]})
+                            break
+                else:
+                    rep.fail("C10: SOCKS5 UDP ASSOCIATE over IPv4 was refused: %s" % a4.reply.hex(), {"kind": "failing-input", "scenario": "socks5 udp from ipv4 to both families"})
+                a4.close()
             except OSError as e:
                 rep.fail("C10: SOCKS5 UDP from IPv6: %s" % e, {"kind": "failing-input", "scenario": "socks5 udp from ipv6"})
             finally:
